@@ -40,7 +40,7 @@ func maybeReload(c *lp.Ctx, cs *Case) {
 
 // genC02: RangeGet on every input key (retained or de-duplicated away).
 func genC02(c *lp.Ctx) {
-	n := c.Pick(400, 4000)
+	n := c.Pick(400, 1200)
 	size := c.Pick(250, 1500)
 	for it := 0; it < n; it++ {
 		ks := gen.Any(c.Rng, size)
@@ -69,7 +69,7 @@ func genC02(c *lp.Ctx) {
 
 // genC03: Complete mode is an exact ordered map for arbitrary queries.
 func genC03(c *lp.Ctx) {
-	n := c.Pick(250, 2500)
+	n := c.Pick(250, 800)
 	size := c.Pick(200, 1000)
 	for it := 0; it < n; it++ {
 		ks := gen.Any(c.Rng, size)
@@ -198,7 +198,7 @@ func b2s(b bool) string {
 
 // genC04: scans on Complete tries; refusal on the 12 incomplete combinations.
 func genC04(c *lp.Ctx) {
-	n := c.Pick(250, 2500)
+	n := c.Pick(250, 800)
 	size := c.Pick(200, 1000)
 	for it := 0; it < n; it++ {
 		ks := gen.Any(c.Rng, size)
@@ -246,7 +246,7 @@ func genC04(c *lp.Ctx) {
 		}
 	}
 	// refusal: all 12 incomplete combinations x key sets
-	m := c.Pick(60, 600)
+	m := c.Pick(60, 200)
 	for it := 0; it < m; it++ {
 		ks := gen.Any(c.Rng, 30)
 		if len(ks.Keys) == 0 {
@@ -281,7 +281,7 @@ func genC04(c *lp.Ctx) {
 
 // genC09: Search on every retained key gives exact neighbours in every mode.
 func genC09(c *lp.Ctx) {
-	n := c.Pick(400, 4000)
+	n := c.Pick(400, 1200)
 	size := c.Pick(250, 1500)
 	for it := 0; it < n; it++ {
 		ks := gen.Any(c.Rng, size)
@@ -303,7 +303,7 @@ func genC09(c *lp.Ctx) {
 
 // genC10: totality and consistency of lookups for arbitrary queries in every mode.
 func genC10(c *lp.Ctx) {
-	n := c.Pick(300, 3000)
+	n := c.Pick(300, 1000)
 	size := c.Pick(220, 1200)
 	for it := 0; it < n; it++ {
 		ks := gen.Any(c.Rng, size)
@@ -359,7 +359,7 @@ func genC10(c *lp.Ctx) {
 
 // genC13: more stored key information only removes false positives.
 func genC13(c *lp.Ctx) {
-	n := c.Pick(120, 1200)
+	n := c.Pick(120, 400)
 	size := c.Pick(200, 1000)
 	modes := []string{"ff", "tf", "ft", "tt"} // inner, leaf
 	for it := 0; it < n; it++ {
@@ -419,7 +419,7 @@ func genC13(c *lp.Ctx) {
 
 // genC14: typed integer getters agree with Get.
 func genC14(c *lp.Ctx) {
-	n := c.Pick(300, 3000)
+	n := c.Pick(300, 1000)
 	size := c.Pick(220, 1200)
 	encs := []string{"i8", "i16", "i32", "i64"}
 	for it := 0; it < n; it++ {
@@ -459,7 +459,7 @@ func genC14(c *lp.Ctx) {
 
 // genC18: Stat.
 func genC18(c *lp.Ctx) {
-	n := c.Pick(500, 5000)
+	n := c.Pick(500, 1500)
 	size := c.Pick(300, 2000)
 	for it := 0; it < n; it++ {
 		ks := gen.Any(c.Rng, size)
@@ -520,7 +520,7 @@ func (cs *Case) checkStat(c *lp.Ctx, s string) {
 
 // genC19: String().
 func genC19(c *lp.Ctx) {
-	n := c.Pick(300, 3000)
+	n := c.Pick(300, 1000)
 	size := c.Pick(300, 2500)
 	for it := 0; it < n; it++ {
 		var ks gen.KeySet
